@@ -309,6 +309,9 @@ type evidence struct {
 // Finish writes the evidence file, prints the verdict lines and exits.
 func (r *Run) Finish() {
 	r.mu.Lock()
+	if r.samples == nil {
+		r.samples = []any{}
+	}
 	cov := map[string]any{
 		"evaluations":         r.evals,
 		"distinct_nontrivial": len(r.distinct),
